@@ -440,4 +440,134 @@ theorem evalCosts_keptS (ctx : Ctx) (doc L : Nat) : ∀ (n cost : Nat) (t : MT) 
       · exact step _
     | found => exact step _
 
+
+/-! #### prune, the bridge to the scan meaning, and the loop hypotheses -/
+
+mutual
+theorem MT.prune_okS (ctx : Ctx) (L : Nat) : (t : MT) → t.OkS ctx L → ∀ t', t.prune = some t' → t'.OkS ctx L
+  | .doc _ _ _ _, h, t', e => by simp only [MT.prune, Option.some.injEq] at e; subst e; exact h
+  | .brute _ _, h, t', e => by simp only [MT.prune, Option.some.injEq] at e; subst e; exact h
+  | .none, h, t', e => by simp only [MT.prune, Option.some.injEq] at e; subst e; exact h
+  | .re _ _ _ _ _ _ _, h, t', e => by simp only [MT.prune, Option.some.injEq] at e; subst e; exact h
+  | .sub s, h, t', e => by
+    simp only [MT.prune] at e
+    split at e
+    · simp at e
+    · simp only [Option.some.injEq] at e; subst e; exact h
+  | .and k ch, h, t', e => by
+    simp only [MT.prune] at e
+    cases hp : MTs.pruneAnd ch with
+    | none => simp [hp] at e
+    | some ch' =>
+      simp only [hp, Option.map, Option.some.injEq] at e; subst e
+      exact MTs.pruneAnd_okS ctx L ch h ch' hp
+  | .or k ch, h, t', e => by
+    simp only [MT.prune] at e
+    have r := MTs.pruneOr_okS ctx L ch h
+    generalize MTs.pruneOr ch = p at r e
+    match p with
+    | .nil => simp at e
+    | .cons x .nil => simp only [Option.some.injEq] at e; subst e; exact r.1
+    | .cons x (.cons y z) => simp only [Option.some.injEq] at e; subst e; exact r
+  | .not k c, h, t', e => by
+    simp only [MT.prune] at e
+    cases hp : c.prune with
+    | none => simp only [hp, Option.some.injEq] at e; subst e; simp [MT.OkS]
+    | some c' =>
+      simp only [hp, Option.some.injEq] at e; subst e
+      exact MT.prune_okS ctx L c h c' hp
+  | .fileName k c, h, t', e => by
+    simp only [MT.prune] at e
+    cases hp : c.prune with
+    | none => simp [hp] at e
+    | some c' => simp only [hp, Option.map, Option.some.injEq] at e; subst e; exact MT.prune_okS ctx L c h c' hp
+  | .boost k c, h, t', e => by
+    simp only [MT.prune] at e
+    cases hp : c.prune with
+    | none => simp [hp] at e
+    | some c' => simp only [hp, Option.map, Option.some.injEq] at e; subst e; exact MT.prune_okS ctx L c h c' hp
+  | .andLine _ _ _, h, _, _ => absurd h (by simp [MT.OkS])
+  | .noVisit _, h, _, _ => absurd h (by simp [MT.OkS])
+theorem MTs.pruneAnd_okS (ctx : Ctx) (L : Nat) : (ch : MTs) → MTs.OkSAll ctx L ch → ∀ ch', MTs.pruneAnd ch = some ch' →
+    MTs.OkSAll ctx L ch'
+  | .nil, _, ch', e => by simp only [MTs.pruneAnd, Option.some.injEq] at e; subst e; trivial
+  | .cons h t, hh, ch', e => by
+    simp only [MTs.pruneAnd] at e
+    cases hp : h.prune with
+    | none => simp [hp] at e
+    | some h' =>
+      cases hq : MTs.pruneAnd t with
+      | none => simp [hp, hq] at e
+      | some t' =>
+        simp only [hp, hq, Option.map, Option.some.injEq] at e; subst e
+        exact ⟨MT.prune_okS ctx L h hh.1 h' hp, MTs.pruneAnd_okS ctx L t hh.2 t' hq⟩
+theorem MTs.pruneOr_okS (ctx : Ctx) (L : Nat) : (ch : MTs) → MTs.OkSAll ctx L ch → MTs.OkSAll ctx L (MTs.pruneOr ch)
+  | .nil, _ => trivial
+  | .cons h t, hh => by
+    simp only [MTs.pruneOr]
+    cases hp : h.prune with
+    | none => exact MTs.pruneOr_okS ctx L t hh.2
+    | some h' => exact ⟨MT.prune_okS ctx L h hh.1 h' hp, MTs.pruneOr_okS ctx L t hh.2⟩
+end
+
+mutual
+/-- **bridge**: on the fragment, the engine-side meaning is the scan meaning `MT.ref` of Spec.lean -/
+theorem MT.ref_eq_semS (ctx : Ctx) (L : Nat) (d : Nat) : (t : MT) → t.OkS ctx L → t.ref ctx d = semS ctx d t
+  | .doc _ _ _ _, _ => rfl
+  | .brute _ _, _ => rfl
+  | .none, _ => rfl
+  | .re _ _ _ _ _ _ _, _ => rfl
+  | .sub s, h => by simp only [MT.ref, semS, MT.sem]; exact (subSemX_eq_occurs ctx L s h d).symm
+  | .and _ ch, h => by simp only [MT.ref, semS, MT.sem]; exact MTs.refAll_eq_semS ctx L d ch h
+  | .or _ ch, h => by simp only [MT.ref, semS, MT.sem]; exact MTs.refAny_eq_semS ctx L d ch h
+  | .not _ c, h => by simp only [MT.ref, semS, MT.sem]; rw [MT.ref_eq_semS ctx L d c h]
+  | .fileName _ c, h => by simp only [MT.ref, semS, MT.sem]; exact MT.ref_eq_semS ctx L d c h
+  | .boost _ c, h => by simp only [MT.ref, semS, MT.sem]; exact MT.ref_eq_semS ctx L d c h
+  | .andLine _ _ _, h => absurd h (by simp [MT.OkS])
+  | .noVisit _, h => absurd h (by simp [MT.OkS])
+theorem MTs.refAll_eq_semS (ctx : Ctx) (L : Nat) (d : Nat) : (ch : MTs) → MTs.OkSAll ctx L ch →
+    MTs.refAll ctx d ch = semAllS ctx d ch
+  | .nil, _ => rfl
+  | .cons h t, hh => by
+    simp only [MTs.refAll, semAllS, MTs.semAll]
+    have a := MT.ref_eq_semS ctx L d h hh.1
+    have b := MTs.refAll_eq_semS ctx L d t hh.2
+    simp only [semS, semAllS] at a b
+    rw [a, b]
+theorem MTs.refAny_eq_semS (ctx : Ctx) (L : Nat) (d : Nat) : (ch : MTs) → MTs.OkSAll ctx L ch →
+    MTs.refAny ctx d ch = semAnyS ctx d ch
+  | .nil, _ => rfl
+  | .cons h t, hh => by
+    simp only [MTs.refAny, semAnyS, MTs.semAny]
+    have a := MT.ref_eq_semS ctx L d h hh.1
+    have b := MTs.refAny_eq_semS ctx L d t hh.2
+    simp only [semS, semAnyS] at a b
+    rw [a, b]
+end
+
+/-- the loop hypotheses hold on the fragment -/
+theorem loopHyp_substr (ctx : Ctx) (hw : ctx.WF) (t0 : MT) :
+    LoopHyp ctx (fun d => semS ctx d t0) (fun L t => t.OkS ctx L ∧ ∀ d, semS ctx d t = semS ctx d t0) where
+  next := by
+    intro L t ⟨h1, h2⟩
+    have k := MT.nextDoc_keptS ctx L t h1
+    refine ⟨fun d hL hd => ?_, k.ok, fun d => by rw [k.sem d, h2 d]⟩
+    have := MT.nextDoc_sound (subSemX ctx) (fun _ _ => true) L t (MT.okS_cur ctx hw L t h1) d hL hd
+    rw [← h2 d]; exact this
+  prep := by
+    intro L t nd ⟨h1, h2⟩ hL hnd
+    have p := MT.prepare_okS ctx hw L nd hL hnd t h1
+    refine ⟨by rw [p.val, h2 nd], ?_⟩
+    have k := evalCosts_keptS ctx nd (nd + 1) 4 0 (t.prepare nd) [] p.ok
+    exact ⟨k.ok, fun d => by rw [k.sem d, p.sem d, h2 d]⟩
+
+/-- a fresh case-sensitive substring leaf as `newSubstringMatchTree` / `iterateNgrams` build it, for any selected
+    trigram positions `i ≤ j` -/
+def mkSub (ctx : Ctx) (fileName : Bool) (pat : List Nat) (i j : Nat) : Sub :=
+  ⟨fileName, true, pat, some (mkIter (ctx.texts fileName) pat i j), [], false⟩
+
+theorem mkSub_ok (ctx : Ctx) (fileName : Bool) (pat : List Nat) (i j : Nat) (hij : i ≤ j) (hj : j + 3 ≤ pat.length)
+    (hsz : totalLen (ctx.texts fileName) + pat.length < maxU32) : SubOk ctx 0 (mkSub ctx fileName pat i j) :=
+  ⟨rfl, by simp only [mkSub]; omega, ⟨i, by simp only [mkSub]; omega, hsz, mkIter_inv _ pat i j hij hj hsz⟩⟩
+
 end ZoektModel.C01
